@@ -124,6 +124,10 @@ func (fx *FnCtx) buildVCs() ([]*VC, error) {
 			if !(a.block == -1 || a.block == it.block || (it.block >= 0 && fx.anc[it.block][a.block])) {
 				continue
 			}
+			// postconditions at the same return are proved independently of each other
+			if a.kind == itOblig && a.block == it.block && strings.Contains(a.name, "#post.") && strings.Contains(it.name, "#post.") {
+				continue
+			}
 			body.WriteString("(assert " + a.t.S + ")\n")
 		}
 		goal := "(assert (not " + it.t.S + "))\n"
